@@ -1,11 +1,12 @@
 pub mod crashsim;
 pub mod reposim;
 pub mod tablesim;
+pub mod wcsim;
 
 use crate::core::runner::Engine;
 
 pub fn all() -> Vec<Box<dyn Engine>> {
-    vec![Box::new(tablesim::TableSim), Box::new(reposim::RepoSim)]
+    vec![Box::new(tablesim::TableSim), Box::new(reposim::RepoSim), Box::new(wcsim::WcSim)]
 }
 
 pub fn by_name(name: &str) -> Option<Box<dyn Engine>> {
